@@ -1447,6 +1447,14 @@ class Exec:
         r = B.try_builtin(self, fr, callee, args, dty)
         if r is not B.NOT_BUILTIN:
             return r
+        # provided comparison methods of PartialOrd for types whose `Ord::cmp` is in the dumps
+        mo = re.match(r"^<(.+) as (?:std::cmp::|core::cmp::)?PartialOrd>::(lt|le|gt|ge)$", callee)
+        if mo and B.try_builtin(self, fr, callee, args, dty) is B.NOT_BUILTIN:
+            fnc = self.resolve(f"<{mo.group(1)} as Ord>::cmp", args)
+            if fnc is not None:
+                o = self.call_function(fnc, args, fr.depth + 1)
+                d = o.disc
+                return BoolV({"lt": T.eq(d, -1), "le": T.ne(d, 1), "gt": T.eq(d, 1), "ge": T.ne(d, -1)}[mo.group(2)])
         # blanket `impl<T, U: From<T>> Into<U> for T`
         mi = re.match(r"^<(.+) as (?:std::|core::)?(?:convert::)?Into<(.+)>>::into$", callee)
         if mi:
